@@ -145,3 +145,5 @@ func splitTabs(s string) (string, map[string]string) {
 	}
 	return parts[0], kv
 }
+
+var errStopBase = fmt.Errorf("stop")
